@@ -204,16 +204,16 @@ def generate(tier, rng, around=None):
         # reaction x hook x occurrence.  This is the quantifier of the all-run theorems (LifeEsc / LifeExc); sampled per tier.
         combos = [(l, lo, rc, h, ho)
                   for l, c in sorted(lcounts.items()) for lo in range(c)
-                  for rc in (['kill', 'lk'], ['pause', None], ['play'], ['fail', 'lf'])
+                  for rc in (['kill', 'lk'], ['pause', None], ['play'], ['fail', 'lf'], ['resume', 'L'])
                   for h, hc in sorted(counts.items()) for ho in range(hc)]
-        k = {'quick': 45, 'thorough': 700}.get(tier, 120)
+        k = {'quick': 50, 'thorough': 900}.get(tier, 120)
         if len(combos) > k:
             combos = rng.sample(combos, k)
         for (l, lo, rc, h, ho) in combos:
             cases.append(dict(base, listeners=[[l, lo, rc]], fault=[h, ho, FAULT], _kind='hook', _scenario=name + '+reacting_listener'))
     return {'cases': cases, 'exhaustive': False,
             'scope': '8 scenarios x every hook x every occurrence index (+1) of the fault-free run; every step function; failing callback at 6 boundaries; '
-                     'every listener notification; sampled: fault x listener reacting with kill/pause/play/fail from inside a notification'}
+                     'every listener notification; sampled: fault x listener reacting with kill/pause/play/fail/resume from inside a notification'}
 
 
 def shrink_candidates(case):
